@@ -247,6 +247,57 @@ mut("vt-check-skips-voucher", "vouched_time/src/lib.rs",
     ["C14"])
 
 # ---- streaming / iovec behaviour seen through the codecs -------------------
+mut("iovec-consume-bytes-forgets-size", "owning_iovec/src/global_deque.rs",
+    "                *slice = IoSlice::new(new_slice);\n                self.consumed_size += num_to_consume as u64;",
+    "                *slice = IoSlice::new(new_slice);\n                self.consumed_size += (num_to_consume as u64).min(300);",
+    ["C03"])
+# iovec-advance-clamp-gt -- equivalent: when a slice is exactly as long as the remaining count both branches end with stable_count == count
+mut("iovec-merge-keeps-anchor-count", "owning_iovec/src/global_deque.rs",
+    "            let remainder = anchor.decrement_count(1);\n            // We can always decrement by 1: `count >= 2`.\n            assert_eq!(remainder, 0);",
+    "            let remainder = 0;\n            // We can always decrement by 1: `count >= 2`.\n            assert_eq!(remainder, 0);",
+    ["C03", "C05", "C10"])
+mut("iovec-clear-keeps-logical-size", "owning_iovec/src/global_deque.rs",
+    "        self.anchors.clear();\n        self.logical_size = 0;\n        self.consumed_size = 0;",
+    "        self.anchors.clear();\n        self.logical_size = self.consumed_size;\n        self.consumed_size = 0;",
+    ["C03"])
+mut("iovec-begin-before-merge", "owning_iovec/src/implementation.rs",
+    "            begin: ioslice_len(self.slices.last_slice().unwrap()) - pattern_size,",
+    "            begin: (ioslice_len(self.slices.last_slice().unwrap()) - pattern_size).min(300),",
+    ["C04", "C03"])
+mut("iovec-backfill-physical-index", "owning_iovec/src/global_deque.rs",
+    "        let index = index\n            .wrapping_sub(self.consumed_slices)",
+    "        let index = index\n            .wrapping_sub(self.consumed_slices.min(2))",
+    ["C04", "C03"])
+mut("iovec-take-leaves-backrefs", "owning_iovec/src/implementation.rs",
+    "        let mut ret = Default::default();\n        std::mem::swap(self, &mut ret);\n        ret",
+    "        let mut ret: Self = Default::default();\n        std::mem::swap(self, &mut ret);\n        std::mem::swap(&mut self.backrefs, &mut ret.backrefs);\n        ret",
+    ["C20", "C03"])
+# iovec-push-appendable-ignores-islast -- equivalent for the listed properties: only changes whether a medium slice is copied or borrowed
+# arena-try-join-no-containment -- not observable here: needs two separately allocated regions to be exactly adjacent in memory, which the allocator never produces (out of reach, DESIGN.md section 7)
+mut("anchors-popped-at-count-1", "owning_iovec/src/global_deque.rs",
+    "            num_to_drain = front.decrement_count(num_to_drain);\n            if front.count() == 0 {",
+    "            num_to_drain = front.decrement_count(num_to_drain);\n            if front.count() <= 1 {",
+    ["C05", "C03"])
+mut("encode-anchored-anchor-first", "hcobs/src/lib.rs",
+    "        self.encode(slice);\n        self.iovec.push_anchor(anchor);\n    }",
+    "        self.iovec.push_anchor(anchor);\n        self.encode(slice);\n    }",
+    ["C05", "C01"])
+mut("consume-zero-anchor-not-popped", "owning_iovec/src/global_deque.rs",
+    "        // Drop any zero-count anchor at the front.\n        while let Some(anchor) = self.anchors.front() {\n            if anchor.count() > 0 {\n                break;\n            }\n\n            self.anchors.pop_front();\n        }",
+    "        // Drop any zero-count anchor at the front.\n        while let Some(anchor) = self.anchors.front() {\n            if anchor.count() > 0 || self.slices.is_empty() {\n                break;\n            }\n\n            self.anchors.pop_front();\n        }",
+    ["C10", "C03"])
+mut("arena-ensure-keeps-old-cache", "owning_iovec/src/byte_arena/mod.rs",
+    "            // Drop the old one before allocating a new cache.\n            self.cache = None;",
+    "            // Drop the old one before allocating a new cache.\n            if initial_size > 8192 { std::mem::forget(self.cache.take()); }\n            self.cache = None;",
+    ["C10"])
+mut("chunker-leaks-buf-on-eof", "hcobs/src/stream_reader.rs",
+    "                if buf.slice().is_empty() {\n                    return Ok(Chunk::Eof);",
+    "                if buf.slice().is_empty() {\n                    std::mem::forget(arena.read_n(&[1u8, 2][..], 2, NonZeroUsize::MIN));\n                    return Ok(Chunk::Eof);",
+    ["C10"])
+mut("arena-clone-shares-nothing-but-leaks", "owning_iovec/src/byte_arena/mod.rs",
+    "        // Can't clone the `AllocCache`.\n        Default::default()",
+    "        // Can't clone the `AllocCache`.\n        if self.remaining() > 4000 { std::mem::forget(self.cache.as_ref().map(|c| c.range())); let mut a = ByteArena::default(); a.ensure_capacity(16); std::mem::forget(a); }\n        Default::default()",
+    ["C10"])
 mut("iovec-stable-prefix-last-backref", "owning_iovec/src/implementation.rs",
     "            .backrefs\n            .first()\n            .map(|backref| backref.1.unwrap().slice_index);",
     "            .backrefs\n            .last()\n            .map(|backref| backref.1.unwrap().slice_index);",
